@@ -147,12 +147,34 @@ def probe(engine, variables_value):
     return json.dumps(out, sort_keys=True, default=repr)
 
 
+def failing_cook(kind):
+    """an attempt to build some *other* schema name that fails: must leave every other schema name as it was"""
+    from tartiflette import Resolver, create_engine
+    name = "faulty_%s" % kind
+    if kind == "resolver-for-missing-field":
+        @Resolver("Query.noSuchField", schema_name=name)
+        async def r(p, a, c, info):
+            return 1
+        sdl = SDL
+    elif kind == "syntax":
+        sdl = "type Query { a: Int"
+    else:  # scalar without implementation
+        sdl = "scalar Unimplemented type Query { a: Unimplemented }"
+    try:
+        harness.run(create_engine(sdl, schema_name=name))
+    except Exception:  # noqa
+        return
+    raise AssertionError("the faulty schema %s was expected not to build" % kind)
+
+
 def run_history(events):
-    """events: list of ("reg", i, kinds tuple) | ("cook", i).  Returns {bundle: probe answers (twice, alternating)}."""
+    """events: list of ("reg", i, kinds tuple) | ("cook", i) | ("badcook", kind).  Returns {bundle: probe answers (twice, alternating)}."""
     engines = {}
     for ev in events:
         if ev[0] == "reg":
             register(ev[1], ev[2])
+        elif ev[0] == "badcook":
+            failing_cook(ev[1])
         else:
             engines[ev[1]] = cook(ev[1])
     answers = {}
@@ -215,11 +237,24 @@ def granular_orders():
         yield seq
 
 
+BAD_KINDS = ["resolver-for-missing-field", "syntax", "scalar-without-implementation"]
+
+
+def with_failed_cook(n):
+    """every order of n bundles with one failing cook of another schema name inserted at every position"""
+    for h in orders(n):
+        for pos in range(len(h) + 1):
+            for kind in (BAD_KINDS if n == 2 else BAD_KINDS[:1]):
+                yield h[:pos] + [("badcook", kind)] + h[pos:]
+
+
 def all_histories(tier):
     hs = []
     for n in (2, 3):
         hs.extend(orders(n))
     hs.extend(granular_orders())
+    hs.extend(with_failed_cook(2))
+    hs.extend(with_failed_cook(3))
     if tier == "thorough":
         hs.extend(orders(4))
     return hs
@@ -250,9 +285,10 @@ def run_shard(item):
         res = in_child(run_history, h)
         out["counts"]["histories"] += 1
         out["counts"]["events"] += len(h)
-        nb = len({e[1] for e in h})
+        nb = len({e[1] for e in h if e[0] != "badcook"})
         out["tables"]["bundles"][str(nb)] = out["tables"]["bundles"].get(str(nb), 0) + 1
-        interleaved = any(h[j][1] != h[j + 1][1] for j in range(len(h) - 1))
+        hh = [e for e in h if e[0] != "badcook"]
+        interleaved = any(hh[j][1] != hh[j + 1][1] for j in range(len(hh) - 1))
         if interleaved:
             out["counts"]["nontrivial"] += 1
         if isinstance(res, list):
@@ -266,7 +302,8 @@ def run_shard(item):
                 continue
             out["counts"]["probes"] += len(answers)
             if answers != ref[b]:
-                kinds = "granular" if any(len(e) == 3 and len(e[2]) == 1 for e in h) else "atomic"
+                kinds = ("after-failed-cook" if any(e[0] == "badcook" for e in h)
+                         else "granular" if any(len(e) == 3 and len(e[2]) == 1 for e in h) else "atomic")
                 out["violations"].append({
                     "signature": "engine-differs-from-alone|%d-bundles|%s" % (nb, kinds),
                     "summary": "history %r: bundle %s answers %s but alone %s" % (h, b, answers[0][:600], ref[b][0][:600]),
@@ -288,7 +325,8 @@ def finish(agg, tier):
         "distinct_nontrivial": c.get("nontrivial", 0),
         "rule": "states = histories, one forked process each: ALL orders of reg(i)/cook(i) events (reg before cook) for 2 bundles (6), 3 "
                 "bundles (90)%s, and for 2 bundles with each of the 5 registration kinds (resolvers, type resolver, scalar, directive, "
-                "subscription) as a separate event (924 interleavings). Bundles share every type/field/scalar/directive/subscription name "
+                "subscription) as a separate event (924 interleavings), and for 2 / 3 bundles with a *failing* cook of another schema name (resolver "
+                "for a missing field, syntax error, scalar without implementation) inserted at every position (90 + 630). Bundles share every type/field/scalar/directive/subscription name "
                 "and differ in behaviour. Each cooked engine is probed twice in alternation (query with literal and variable scalar "
                 "input, abstract type, directive, introspection, subscription) and compared with the same bundle built alone in a fresh "
                 "process. non-trivial = histories that interleave events of different bundles"
